@@ -46,7 +46,7 @@ impl<const K: usize> Dsm<K> {
             d = (d << 1) | c as i8;
             *a
         });
-        self.c.iter_mut().take(K - 1).fold(d & 1, |mut y, c| {
+        self.c.iter_mut().take(K.saturating_sub(1)).fold(d & 1, |mut y, c| {
             d >>= 1;
             (y, *c) = ((d & 1) + y - *c, y);
             y
